@@ -445,7 +445,7 @@ class IRGenerator:
                             item.lineno, item.path)
                     env = self._get_or_create_env(namespace.name)
                     imported_env = self._get_or_create_env(item.target)
-                    if namespace.name in imported_env:
+                    if self._env_imports_namespace(imported_env, namespace.name):
                         # Block circular imports. The Python backend can't
                         # easily generate code for circular references.
                         raise InvalidSpec(
@@ -454,6 +454,26 @@ class IRGenerator:
                             (quote(namespace.name), quote(item.target)),
                             item.lineno, item.path)
                     env[item.target] = imported_env
+
+    @staticmethod
+    def _env_imports_namespace(env, namespace_name):
+        """
+        Whether the namespace of env imports the namespace called
+        namespace_name, directly or through the namespaces it imports.
+        """
+        to_visit = [env]
+        visited = set()
+        while to_visit:
+            cur_env = to_visit.pop()
+            if cur_env.namespace_name in visited:
+                continue
+            visited.add(cur_env.namespace_name)
+            for name, value in cur_env.items():
+                if isinstance(value, Environment):
+                    if name == namespace_name:
+                        return True
+                    to_visit.append(value)
+        return False
 
     @staticmethod
     def _raise_symbol_already_defined(existing, item):
